@@ -2,6 +2,7 @@ import J5V.Compile.StrcaseProofs
 import J5V.Compile.ConvertProofs
 import J5V.Compile.Entity
 import J5V.Generated.CompileconstsFacts
+import J5V.Compile.EntityProofs
 /-!
 # C17 — entity declarations expand to a complete, mutually consistent API
 
@@ -279,6 +280,51 @@ theorem C17_event_oneof_skeleton (c : Ctx) (e : Entity)
     have := bProps_fld_oneof c ([] ++ [(eventOneof e).name]) true 1 ([] ++ (eventOneof e).props) f
       (by simpa [declMsgOf, declMsg, mkMsg, MsgSkel.fields] using hf)
     simpa using this
+
+/-- **The entity on the generated files.** What a valid entity contributes, through conversion,
+to the files of its source file (for every conversion context, every entity shape):
+* main file — exactly the messages `Keys, Data, State, EventType, Event` in this order (each the
+  message of its object, `C17_state_skeleton` etc. give their fields), then the entity's nested
+  schemas; exactly the enum `Status` (numbered by `C17_status_numbering`), then nested enums;
+* `.service` file — the query service (one proto service) followed by one proto service per
+  declared command service;
+* `.topic` file — the publish topic service followed by one upsert topic service per summary.
+Nothing else; together with `C02_exactness_file` this fixes the entity's part of every file. -/
+theorem C17_entity_files (c : Ctx) (pkg : Str) (e : Entity) (hv : ValidEntity e) :
+    ((expand pkg e).filter (·.target = .main)).flatMap (itemMsgs c) =
+      [ declMsgOf c [] false [] (keysObject e), declMsgOf c [] false [] (dataObject e),
+        declMsgOf c [] false [] (stateObject e), declMsgOf c [] true [] (eventOneof e),
+        declMsgOf c [] false [] (eventObject e) ] ++ (e.nested.map nestedItem).flatMap (itemMsgs c) ∧
+    ((expand pkg e).filter (·.target = .main)).flatMap (itemEnums c) =
+      convEnum (statusEnum e) :: (e.nested.map nestedItem).flatMap (itemEnums c) ∧
+    ((expand pkg e).filter (·.target = .service)).flatMap (itemSvcs c) =
+      serviceSvcs c (queryService pkg e) ++
+        (e.commands.map (commandService pkg e)).flatMap (serviceSvcs c) ∧
+    ((expand pkg e).filter (·.target = .topic)).flatMap (itemSvcs c) =
+      (topicNodes (publishTopic pkg e)).map topicSvc ++
+        (e.summaries.map (summaryTopic pkg e)).flatMap fun t => (topicNodes t).map topicSvc :=
+  entity_files c pkg e hv
+
+/-- **The query service on the skeleton**: one proto service `<C>QueryService` carrying the entity
+annotation, with exactly the rpcs `<C>Get`, `<C>List`, `<C>Events` in this order — input
+`<M>Request`, output `<M>Response`, verb GET, annotated get / list / events, path
+`/<base>/q/…` with every `:key` rewritten to `{snake(key)}` (`C02_path_rewrite`; the keys are the
+primary keys in declaration order, `C17_primary_keys`). -/
+theorem C17_query_service_skeleton (c : Ctx) (pkg : Str) (e : Entity) :
+    serviceSvcs c (queryService pkg e) =
+      [{ name := toCamel e.name ++ b!"Query" ++ b!"Service", sopt := .query (snakeName e),
+         methods := [getMethod e, listMethod e, eventsMethod e].map
+           (methodSkelOf (some (b!"/" ++ baseUrlPath pkg e ++ b!"/q"))) }] ∧
+    ([getMethod e, listMethod e, eventsMethod e].map
+        (methodSkelOf (some (b!"/" ++ baseUrlPath pkg e ++ b!"/q")))).map
+      (fun m => (m.name, m.input, m.output, m.mopt, m.http.map (·.verb))) =
+      [ (toCamel e.name ++ b!"Get", toCamel e.name ++ b!"Get" ++ b!"Request",
+          toCamel e.name ++ b!"Get" ++ b!"Response", .get, some .get),
+        (toCamel e.name ++ b!"List", toCamel e.name ++ b!"List" ++ b!"Request",
+          toCamel e.name ++ b!"List" ++ b!"Response", .list, some .get),
+        (toCamel e.name ++ b!"Events", toCamel e.name ++ b!"Events" ++ b!"Request",
+          toCamel e.name ++ b!"Events" ++ b!"Response", .events, some .get) ] :=
+  ⟨queryService_svcs c pkg e, rfl⟩
 
 /-! ## Non-vacuity -/
 
